@@ -719,6 +719,13 @@ fn c19_run_phase(ctx: &Ctx, out: &mut Out, rng: &mut Rng, k: u64, force: Option<
     if phase == Phase::AcceptFault {
         cfg.health_check_port = Some(free_port(true));
     }
+    // a quarter of the regular runs has a health port with a few clients that connect, say
+    // nothing and stay connected (a half-open probe, a port scanner) when the signal arrives
+    let silent_health = force.is_none() && rng.chance(1, 4);
+    if silent_health {
+        cfg.health_check_port = Some(free_port(true));
+        out.obs("runs_with_silent_health_connections", 1);
+    }
     // how the process was started and how the signal reaches it
     let start_disp = if force.is_none() { rng.below(4) } else { 0 };
     match start_disp {
@@ -874,6 +881,15 @@ fn c19_run_phase(ctx: &Ctx, out: &mut Out, rng: &mut Rng, k: u64, force: Option<
             }
         }
     }
+    let mut silent_conns: Vec<std::net::TcpStream> = Vec::new();
+    if let (true, Some(hp)) = (silent_health, sp.cfg.health_check_port) {
+        for _ in 0..rng.range(1, 2 * nworkers as u64) {
+            if let Ok(c) = std::net::TcpStream::connect_timeout(&format!("127.0.0.1:{}", hp).parse().unwrap(), Duration::from_millis(300)) {
+                silent_conns.push(c);
+            }
+        }
+        std::thread::sleep(Duration::from_millis(30));
+    }
     std::thread::sleep(Duration::from_micros(delay_us));
     let alive_before = sp.exited().is_none();
     match delivery {
@@ -910,6 +926,7 @@ fn c19_run_phase(ctx: &Ctx, out: &mut Out, rng: &mut Rng, k: u64, force: Option<
     let slow_exit = false;
     stop.store(true, Ordering::Relaxed);
     drop(accept_conns);
+    drop(silent_conns);
     let mut verified = 0u64;
     let mut invalid: Option<String> = None;
     for h in client_handles {
